@@ -171,6 +171,33 @@ def closure_acceptance(f, L, clos, S, store=None):
     return out
 
 
+def is_set_expr(x):
+    return isinstance(x, tuple) and bool(x) and (x[0] in setalg.SETOPS or x[0] in ("bbof", "bbconst", "rankbb", "filebb", "bool") or
+                                                 (x[0] == "get" and x[1] in ("colors", "pieces", "pinned", "checkers")))
+
+
+def set_eq_as_emptiness(e):
+    """A == B on sets is `A xor B is empty` (so `p - m == p`, `(p & m).is_empty()` and `p.is_disjoint(m)` agree)"""
+    if e[0] == "bin" and e[1] in ("Eq", "Ne") and is_set_expr(e[2]) and is_set_expr(e[3]) and \
+            (e[2][0] in setalg.SETOPS or e[3][0] in setalg.SETOPS):
+        x = ("isempty", ("xor", e[2], e[3]))
+        return x if e[1] == "Eq" else ("un", "Not", x)
+    return e
+
+
+def expand_tuple_eq(items):
+    """(a, b) == X decided true is a == X.0 and b == X.1"""
+    out = []
+    for e, v in items:
+        if e[0] == "bin" and e[1] == "Eq" and v == 1 and (e[2][0] == "tuple") != (e[3][0] == "tuple"):
+            tp, other = (e[2], e[3]) if e[2][0] == "tuple" else (e[3], e[2])
+            for i, comp in enumerate(tp[1]):
+                out.append((("bin", "Eq", comp, ("field", other, str(i))), 1))
+        else:
+            out.append((e, v))
+    return out
+
+
 def acceptance(f, L, name, noinline=None):
     """-> (straight DNF, {loop set canon: iteration DNF}, residual returns) of a validator"""
     b = f.need(name)
@@ -187,11 +214,13 @@ def acceptance(f, L, name, noinline=None):
             items = list(conds)
             if p.ret != sym.TRUE:
                 items.append((norm_each(L.lift(p.ret), f.adts), 1))
+            items = expand_tuple_eq(items)
             for e, v in items:
                 if e[0] == "discr" and e[1][0] == "next":
                     continue
                 if sym.contains(e, lambda x: x[0] == "hv"):
                     continue
+                e = set_eq_as_emptiness(e)
                 # `iter.all(|x| cond)` taken on its true edge is a loop over the iterated set
                 if e[0] == "call" and e[1].endswith("Iterator::all") and v == 1:
                     itv = None
@@ -219,14 +248,81 @@ def acceptance(f, L, name, noinline=None):
             S = conds[idx][0][1][1]
             key = repr(setalg.canon(S)) if S[0] in setalg.SETOPS or S[0] == "get" else repr(S)
             lst = []
-            for e, v in conds[idx + 1:]:
+            for e, v in expand_tuple_eq(conds[idx + 1:]):
                 if sym.contains(e, lambda x: x[0] == "hv"):
                     continue
+                e = set_eq_as_emptiness(e)
                 lst.append(natom(king_as_set(prep(e)), v))
             loops.setdefault(key, (S, []))[1].append(lst)
     straight = [merge_empties(c) for c in straight]
     loops = {k: (S, [merge_empties(c) for c in dnf]) for k, (S, dnf) in loops.items()}
     return b, straight, loops
+
+
+def value_range(x):
+    """the values an integer-valued atom operand can take at all (all of them unsigned here)"""
+    if x[0] == "len":
+        return (0, 64)
+    if x[0] == "get" and x[1] == "halfmove_clock":
+        return (0, 255)
+    if x[0] == "get" and x[1] == "fullmove_number":
+        return (0, 65535)
+    if x[0] == "cast" and x[1] in ("u8",):
+        return (0, 255)
+    return (0, (1 << 64) - 1)
+
+
+def merge_ranges(dnf):
+    """per conjunction, all range atoms on one operand become a single interval atom (so `!= 0`, `> 0` and `>= 1`,
+    `<= 16` and `< 17`, `>= 17 -> reject` read the same); conjunctions with an empty interval are dropped"""
+    out = []
+    for conj in dnf:
+        ivs = {}
+        rest = []
+        dead = False
+        for a, pol in conj:
+            if isinstance(a, tuple) and a and a[0] == "range":
+                x, lo, hi = a[1], a[2], a[3]
+                tmin, tmax = value_range(x)
+                cur = ivs.setdefault(x, [tmin, tmax, []])
+                lo = tmin if lo is None else max(lo, tmin)
+                hi = tmax if hi is None else min(hi, tmax)
+                if pol:
+                    cur[0] = max(cur[0], lo)
+                    cur[1] = min(cur[1], hi)
+                else:
+                    cur[2].append((lo, hi))
+            else:
+                rest.append((a, pol))
+        for x, (lo, hi, holes) in ivs.items():
+            changed = True
+            left = list(holes)
+            while changed:
+                changed = False
+                for h in list(left):
+                    hl, hh = h
+                    if hl <= lo and hh >= lo:
+                        lo = hh + 1
+                        left.remove(h)
+                        changed = True
+                    elif hh >= hi and hl <= hi:
+                        hi = hl - 1
+                        left.remove(h)
+                        changed = True
+                    elif hh < lo or hl > hi:
+                        left.remove(h)
+                        changed = True
+            if lo > hi:
+                dead = True
+                break
+            tmin, tmax = value_range(x)
+            if (lo, hi) != (tmin, tmax):
+                rest.append((("interval", x, lo, hi), True))
+            for hl, hh in left:
+                rest.append((("interval", x, hl, hh), False))
+        if not dead:
+            out.append(sorted(rest, key=repr))
+    return out
 
 
 def dedupe(dnf):
@@ -241,6 +337,8 @@ def compare(ctx, key, what, code_dnf, spec_dnf, where):
     code_dnf = dedupe(code_dnf)
     spec_dnf = [merge_empties([(("isempty", setalg.canon(king_as_set(movegen_bool(a[1]) if (isinstance(a[1], tuple) and a[1] and a[1][0] == "bool") else a[1]))), pol)
                                if (isinstance(a, tuple) and a and a[0] == "isempty") else (a, pol) for a, pol in c]) for c in spec_dnf]
+    code_dnf = dedupe(merge_ranges(code_dnf))
+    spec_dnf = merge_ranges(spec_dnf)
     try:
         ok, wit = setalg.guards_equivalent(code_dnf, spec_dnf)
     except ValueError as e:
